@@ -19,6 +19,7 @@
 #include "isal_crypto_api.h"
 
 #pragma GCC diagnostic ignored "-Wdeprecated-declarations"
+extern void verif_poison_vregs(void); /* harness/poison.S */
 typedef void (*kx_fn)(const uint8_t *, uint8_t *, uint8_t *);
 typedef int (*kx_ifn)(const uint8_t *, uint8_t *, uint8_t *);
 typedef void (*kxe_fn)(const uint8_t *, uint8_t *);
@@ -147,6 +148,7 @@ keyexp_case(char **tok, int nt)
                         }
                         arm(e);
                         if (sigsetjmp(aesm_jb, 1) == 0) {
+                                verif_poison_vregs();
                                 if (e->kind == 1) rc = ((kx_ifn) e->fn)(k.p, eb.p, db.p);
                                 else if (e->kind == 3) rc = aes_cbc_precomp(k.p, (int) kn, (struct isal_cbc_key_data *) eb.p);
                                 else if (e->kind == 4) ((kxe_fn) e->fn)(k.p, eb.p);
@@ -221,6 +223,7 @@ cbc_case(char **tok, int nt)
                                 uint8_t *keys = e->dec ? kp->dec_keys : kp->enc_keys;
                                 arm(e);
                                 if (sigsetjmp(aesm_jb, 1) == 0) {
+                                verif_poison_vregs();
                                         if (e->kind == 1) rc = ((cbc_ifn) e->fn)(in.p, ivb.p, keys, out.p, len);
                                         else if (e->kind == 2 && !e->dec) rc = ((cbc_ifn) e->fn)(in.p, ivb.p, keys, out.p, len);
                                         else ((cbc_fn) e->fn)(in.p, ivb.p, keys, out.p, len);
